@@ -49,6 +49,20 @@ fn layout_times(layout: u8, n: usize) -> Vec<i64> {
     match layout {
         0 => (0..n).map(|i| base + 1000 * i as i64).collect(),
         1 => (0..n).map(|i| base + i as i64).collect(),
+        3 => {
+            // around the limits of narrower time representations: +-2^31, +-2^32, +-2^52/53, +-2^62 (ascending)
+            let mut v: Vec<i64> = vec![];
+            for k in [62u32, 53, 52, 32, 31] {
+                v.extend([-(1i64 << k) - 1, -(1i64 << k), -(1i64 << k) + 1]);
+            }
+            v.extend([-1, 0, 1]);
+            for k in [31u32, 32, 52, 53, 62] {
+                v.extend([(1i64 << k) - 1, 1i64 << k, (1i64 << k) + 1]);
+            }
+            // the n middle elements
+            let skip = (v.len().saturating_sub(n)) / 2;
+            v.into_iter().skip(skip).take(n).collect()
+        }
         _ => {
             // extreme: first and last at the ends of i64, the rest spaced
             let mut v: Vec<i64> = (0..n).map(|i| base + 1000 * i as i64).collect();
@@ -69,7 +83,7 @@ fn leap_table(variant: u8, times: &[i64]) -> Vec<(i64, i32)> {
         return vec![];
     }
     let mid = if times.is_empty() { 400_000_500 } else { times[times.len() / 2] };
-    let mid = if mid < 0 || mid > 1 << 40 { 400_000_500 } else { mid };
+    let mid = if mid < 3 * DAY28 || mid > 1 << 40 { 400_000_500 } else { mid };
     let pos = match (variant - 1) % 3 {
         0 => 78_796_800,
         1 => mid,
@@ -165,6 +179,30 @@ pub fn check_zone(cyc: &Cycle, z: &MZone, probes: &[i64], rec: &Recorder, sweep:
             };
             if !same {
                 rec.violation(sweep, case(), json!(format!("owned == borrowed: {:?}", got.as_ref().map(|l| type_json(l)))), json!(format!("{:?}", g2.as_ref().map(|l| type_json(l)))));
+            }
+        }
+        // the same instant through the other public routes must carry the same type
+        if let Ok(l) = &got {
+            let total = u as i128 * 1_000_000_000 + 17;
+            let mut routes: Vec<(&str, Result<DateTime, TzError>)> = vec![("from_total_nanoseconds", DateTime::from_total_nanoseconds(total, zr))];
+            if let Ok(uu) = tz::UtcDateTime::from_timespec(u, 17) {
+                routes.push(("UtcDateTime::project", uu.project(zr)));
+            }
+            if let Ok(src) = tz::LocalTimeType::new(l.ut_offset(), !l.is_dst(), Some(b"SRC")) {
+                if let Ok(d0) = DateTime::from_timespec_and_local(u, 17, src) {
+                    routes.push(("DateTime::project from a type with the same offset", d0.project(zr)));
+                }
+            }
+            for (name, r) in routes {
+                match r {
+                    Ok(d) => {
+                        if d.local_time_type() != *l || d.unix_time() != u || d.nanoseconds() != 17 {
+                            rec.violation(sweep, case(), json!({"route": name, "type": type_json(l), "unix_time": u}), json!(format!("{d:?}")));
+                        }
+                    }
+                    Err(TzError::OutOfRange) => {}
+                    Err(e) => rec.violation(sweep, case(), json!({"route": name, "type": type_json(l)}), json!(err_name(&e))),
+                }
             }
         }
         // local date-time = UTC calendar date of instant + offset
@@ -370,14 +408,17 @@ pub fn run(args: &Args) -> i32 {
     // work list: (n, layout, pattern code) ; pattern code < 3 => i mod (code+1) ; otherwise explicit base-3 sequence number
     let mut work: Vec<(usize, u8, u64, bool)> = vec![];
     for n in 0..=max_n {
-        for layout in 0..3u8 {
+        for layout in 0..4u8 {
+            if layout == 3 && n > 33 {
+                continue;
+            }
             for k in 0..3u64 {
                 work.push((n, layout, k, false));
             }
         }
     }
     for n in 1..=all_seq_n {
-        for layout in 0..3u8 {
+        for layout in 0..4u8 {
             for code in 0..3u64.pow(n as u32) {
                 work.push((n, layout, code, true));
             }
@@ -460,7 +501,7 @@ pub fn run(args: &Args) -> i32 {
     rec.sub("table", json!({"shapes": work.len(), "zones": total.zones, "zones_refused_as_model_predicts": total.rejected, "lookups": total.evals, "max_table_len": max_n, "all_index_sequences_up_to_len": all_seq_n}));
     rec.add(total.evals, total.nontrivial);
     rec.digest("table", total.digest);
-    rec.set_rule("zones: table length 0..=N x 3 time layouts (spaced, adjacent, i64 extremes) x type-index patterns (i mod k; all 3^n sequences for small n) x 7 leap tables x {no rule, fixed rule, DST rule}; zones with 256..513 (65537) local time types; every +-1 walk of the leap correction of length <= 5 (7) x transitions at record -1/0/+1; probes: every transition -3..+3, every leap record -2..+2, 0, i64 extremes; oracle: linear-scan zone model; DateTime::from_timespec fields vs model calendar; owned == borrowed. non-trivial = probes whose expected answer differs from that of the instant one second earlier");
+    rec.set_rule("zones: table length 0..=N x 4 time layouts (spaced, adjacent, around +-2^31 / 2^32 / 2^52 / 2^53 / 2^62, i64 extremes) x type-index patterns (i mod k; all 3^n sequences for small n) x 7 leap tables x {no rule, fixed rule, DST rule}; zones with 256..513 (65537) local time types; every +-1 walk of the leap correction of length <= 5 (7) x transitions at record -1/0/+1; probes: every transition -3..+3, every leap record -2..+2, 0, i64 extremes; oracle: linear-scan zone model; DateTime::from_timespec fields vs model calendar; owned == borrowed. non-trivial = probes whose expected answer differs from that of the instant one second earlier");
     rec.set_exhaustive(true);
     rec.outcome("type");
     rec.outcome("NoAvailableLocalTimeType");
